@@ -389,7 +389,7 @@ func (m *machine) update() {
 var rec = ev.New("c06/handler-history", "rapid state machine over the real request handler and transmit-timestamp update (verif hooks) with a registered fake clock: 2..5 clients; requests of kinds {basic, interleaved citing the latest / any / a superseded reply of the same client, citing another client's reply, unknown origin, rx field == tx field, verbatim replay}, receive times {later, colliding with a kept one of the same or another client, earlier, +1 ns chains}, bases incl. the 2036 era boundary, clock reading after/equal/before the receive time; transmit-timestamp updates {kernel later, unreadable, kernel before rx} applied immediately, delayed or never. Oracle: history model independent of the replacement policy (header fields, rx uniqueness, basic/interleaved justification against the pre-call snapshot, recorded tx = kernel value once delivered, lost exchanges dropped, no foreign timestamps, pair on record right after a stateful request). One evaluation = one step. Non-trivial: sequence with an interleaved reply, an rx collision bump or a lost-tx removal; distinct by hash of the step log")
 
 func TestPropHandlerHistory(t *testing.T) {
-	vt.Check(t, 12000, 60000, func(t *rapid.T) {
+	vt.Check(t, 30000, 150000, func(t *rapid.T) {
 		server.ResetV()
 		m := &machine{t: t, byRx: map[string]map[ntp.Time64]*hist{}, labels: map[string]int{}}
 		nc := rapid.IntRange(2, 5).Draw(t, "nclients")
